@@ -17,7 +17,7 @@ TECHNIQUE = ("Coq proofs over an executable model of sm2/p256.go and GenerateKey
              "(affine spec, Jacobian formula lemmas over any field by `field`, total PointAdd/Sub/Double, wNAF recoding, comb evaluation, "
              "table checked by vm_compute), constants re-read from the source by the translator; model tied to /repo by differential runs "
              "of the extracted model (black box: public API; white box: 9-limb functions through hooks) and a python affine oracle")
-LEVEL_TEXT = ("Theorems in Coq (Props/C03.v, 40): the generated parameters are those of GM/T 0003.5, G on the curve, RInverse*2^257 = 1, "
+LEVEL_TEXT = ("Theorems in Coq (Props/C03.v, 41): the generated parameters are those of GM/T 0003.5, G on the curve, RInverse*2^257 = 1, "
               "Zero31/Carry/Factor limb constants, the 2x15 comb table entries are [sum b_i 2^(64i+32h)]G; Jacobian doubling / mixed / full "
               "addition formulas as the code computes them represent the affine law over ANY field (incl. Z=0, P=-Q, equal-input cases); "
               "for ALL pairs of curve points incl. infinity (0,0), equal and opposite: Add/Double = group law; IsOnCurve = curve equation for all "
